@@ -11,7 +11,7 @@ from nodecheck import Obs, kv
 from nodegen import HOST, REALM
 
 PROP = "C14"
-MODULES = ["DV.Properties.C14", "DV.Properties.C14Tables"]
+MODULES = ["DV.Properties.C14", "DV.Properties.C14Tables", "DV.Properties.ConfigTie"]
 KEEP = {"OUT": None, "APP": None, "CRASH": None, "RAISE": None, "CONN": ["state", "live"], "RES": ["workersLive", "crashed"],
         "SIZE": ["peerW"]}
 
